@@ -30,6 +30,9 @@ pub struct FaultSer {
     pub seam: String,
     pub kind: String,
     pub arg: u32,
+    /// with `stmt` = None: the n-th operation and every one after it
+    #[serde(default)]
+    pub permanent: bool,
 }
 
 pub fn class_name(c: OpClass) -> &'static str {
@@ -59,7 +62,9 @@ impl FaultSer {
         let (stmt, occ, ordinal) = match f.addr {
             FaultAddr::Stmt { stmt, occ, ordinal } => (Some(stmt), occ, ordinal),
             FaultAddr::Global { nth } => (None, 0, nth),
+            FaultAddr::From { nth } => (None, 0, nth),
         };
+        let permanent = matches!(f.addr, FaultAddr::From { .. });
         let (kind, arg): (&str, u32) = match f.kind {
             FaultKind::ShortWrite(p) => ("short_write", p as u32),
             FaultKind::WriteZero => ("write_zero", 0),
@@ -89,6 +94,7 @@ impl FaultSer {
             seam: seam_name(f.seam).into(),
             kind: kind.into(),
             arg,
+            permanent,
         }
     }
 
@@ -131,6 +137,7 @@ impl FaultSer {
                 occ: self.occ,
                 ordinal: self.ordinal,
             },
+            None if self.permanent => FaultAddr::From { nth: self.ordinal },
             None => FaultAddr::Global { nth: self.ordinal },
         };
         Fault {
